@@ -258,6 +258,7 @@ def run(ctx):
     del model_reqs[:], model_metas[:]
     included_needs_includer(ctx)
     store_and_split_namespace(ctx)
+    wsdl_then_xsd_imports(ctx)
     relative_include_shapes(ctx)
     if metas:
         ctx.sample({"input": metas[0][0], "fetched": metas[0][1]})
@@ -472,6 +473,43 @@ def store_and_split_namespace(ctx):
                     ctx.fail("the documents were not fetched exactly once each", meta, tr.opened, [root_url, part_url])
 
 
+def wsdl_then_xsd_imports(ctx):
+    """A root WSDL that wsdl:imports another WSDL (which has <types> of its own) AND an XSD document, in either
+    order: everything is loaded and built."""
+    W, S, X = IF.WSDLNS, IF.SOAPNS, "http://www.w3.org/2001/XMLSchema"
+    sub = ('<wsdl:definitions targetNamespace="urn:sub" xmlns:wsdl="%s" xmlns:xsd="%s"><wsdl:types><xsd:schema '
+           'targetNamespace="urn:s" elementFormDefault="qualified"><xsd:element name="e" type="xsd:string"/></xsd:schema>'
+           '</wsdl:types></wsdl:definitions>' % (W, X)).encode()
+    xsd = ('<xsd:schema xmlns:xsd="%s" targetNamespace="urn:t" elementFormDefault="qualified"><xsd:element name="f" '
+           'type="xsd:string"/></xsd:schema>' % X).encode()
+    imps = {"w": '<wsdl:import namespace="urn:sub" location="sub.wsdl"/>',
+            "x": '<wsdl:import namespace="urn:t" location="t.xsd"/>'}
+    for order in ("wx", "xw", "x", "wxw"):
+        root = ('<wsdl:definitions targetNamespace="urn:w" xmlns:wsdl="%s" xmlns:w="urn:w" xmlns:t="urn:t" xmlns:s="urn:s" '
+                'xmlns:soap="%s">%s<wsdl:message name="fIn"><wsdl:part name="p" element="t:f"/></wsdl:message>'
+                '<wsdl:portType name="PT"><wsdl:operation name="f"><wsdl:input message="w:fIn"/></wsdl:operation>'
+                '</wsdl:portType><wsdl:binding name="B" type="w:PT"><soap:binding style="document" '
+                'transport="http://schemas.xmlsoap.org/soap/http"/><wsdl:operation name="f"><soap:operation '
+                'soapAction="f"/><wsdl:input><soap:body use="literal"/></wsdl:input></wsdl:operation></wsdl:binding>'
+                '<wsdl:service name="S"><wsdl:port name="P" binding="w:B"><soap:address location="http://x.invalid/"/>'
+                '</wsdl:port></wsdl:service></wsdl:definitions>' % (W, S, "".join(imps[k] for k in order))).encode()
+        net = {"http://d.invalid/root.wsdl": root, "http://d.invalid/sub.wsdl": sub, "http://d.invalid/t.xsd": xsd}
+        meta = {"stream": "wsdl-then-xsd-imports", "order": order}
+        ctx.case(common.canon(meta), True)
+        client, err, store, tr = load("http://d.invalid/root.wsdl", {}, net)
+        if err is None:
+            try:
+                env = client.service.f("v").envelope
+                ok = b">v<" in env
+                if "w" in order:
+                    client.factory.create("{urn:s}e")
+            except Exception as e:
+                ok, err = False, "%s: %s" % (type(e).__name__, e)
+        if err is not None or not ok:
+            ctx.fail("a WSDL that imports another WSDL and an XSD document does not load completely", meta, err,
+                     "a client whose operation uses the imported schema")
+
+
 def included_needs_includer(ctx):
     meta = {"stream": "included-needs-includer"}
     ctx.case(common.canon(meta), True)
@@ -490,6 +528,10 @@ def witness(ctx, k):
     kind = (k.get("witness") or {}).get("kind")
     if kind == "included-needs-includer":
         return d35_load()[1] is not None
+    if kind == "wsdl-then-xsd":
+        c2 = common.Ctx(ctx.prop_id, "quick", 0, common.Driver(False), [])
+        wsdl_then_xsd_imports(c2)
+        return bool(c2.failures)
     if kind == "wimport-xsd-base-url":
         xsd = (b'<xsd:schema xmlns:xsd="http://www.w3.org/2001/XMLSchema" targetNamespace="urn:t" '
                b'elementFormDefault="qualified"><xsd:include schemaLocation="more.xsd"/></xsd:schema>')
